@@ -238,6 +238,105 @@ impl Family for SyncFam {
             _ => true,
         }
     }
+    fn objects_of(op: &SOp) -> Vec<u32> {
+        match op {
+            SOp::Lock(m) | SOp::Unlock(m) | SOp::Set(m, _) => vec![0x100 + *m as u32],
+            SOp::Wait(c, m) | SOp::WaitWhile0(c, m) => vec![0x500 + *c as u32, 0x100 + *m as u32],
+            SOp::NotifyOne(c) | SOp::NotifyAll(c) => vec![0x500 + *c as u32],
+            SOp::BarrierWait(b) => vec![0x600 + *b as u32],
+            SOp::OnceCall(o) | SOp::OnceIsCompleted(o) => vec![0x700 + *o as u32],
+            SOp::OnceNested(a, b) => vec![0x700 + *a as u32, 0x700 + *b as u32],
+            // park tokens: anybody's unpark can reach anybody's park
+            SOp::Park | SOp::Unpark(_) => vec![0x800],
+            SOp::Yield => vec![],
+        }
+    }
+    /// unlock -> later acquisition (lock, or return from wait) of the same mutex; notify_all -> waits
+    /// that were called before it and return after it; winning call_once -> later losing call_once;
+    /// barrier (as many waiting threads as the bound, same number of waits each): what a thread did
+    /// before its j-th wait -> every other thread's return from its j-th wait
+    fn hb_must(p: &Program<SyncFam>, log: &[Entry<SRes>]) -> Vec<(usize, usize)> {
+        let mut out = Vec::new();
+        let mut last_unlock: std::collections::HashMap<usize, usize> = Default::default();
+        let mut once_done: std::collections::HashMap<usize, usize> = Default::default();
+        for (i, e) in log.iter().enumerate() {
+            let EKind::Ret(GRes::R(r)) = &e.kind else { continue };
+            let GOp::Op(op) = &p.threads[e.thread][e.op] else { continue };
+            match op {
+                SOp::Unlock(m) => {
+                    last_unlock.insert(*m, i);
+                }
+                SOp::Lock(m) | SOp::Wait(_, m) | SOp::WaitWhile0(_, m) => {
+                    if let Some(u) = last_unlock.get(m) {
+                        out.push((*u, i));
+                    }
+                }
+                SOp::OnceCall(o) => match r {
+                    SRes::Ran(true) => {
+                        // what the winner did up to the start of its call (the initialiser's
+                        // completion is published before call_once returns)
+                        if let Some(b) = call_of(log, e.thread, e.op).and_then(|c| prev_clocked(log, c, e.thread)) {
+                            once_done.insert(*o, b);
+                        }
+                    }
+                    _ => {
+                        if let Some(w) = once_done.get(o) {
+                            out.push((*w, i));
+                        }
+                    }
+                },
+                SOp::NotifyAll(c) => {
+                    // waits on c whose Call precedes this Ret and whose Ret follows it
+                    for (j, w) in log.iter().enumerate().skip(i + 1) {
+                        if !matches!(w.kind, EKind::Ret(_)) {
+                            continue;
+                        }
+                        if let GOp::Op(SOp::Wait(c2, _)) = &p.threads[w.thread][w.op] {
+                            if c2 == c {
+                                let called_before = log[..i].iter().any(|x| x.thread == w.thread && x.op == w.op && x.kind == EKind::Call);
+                                if called_before {
+                                    out.push((i, j));
+                                }
+                            }
+                        }
+                    }
+                }
+                _ => {}
+            }
+        }
+        // barriers
+        for (b, bound) in p.cfg.barriers.iter().enumerate() {
+            let waits_of = |t: usize| p.threads[t].iter().filter(|o| matches!(o, GOp::Op(SOp::BarrierWait(x)) if *x == b)).count();
+            let users: Vec<usize> = (0..p.threads.len()).filter(|&t| waits_of(t) > 0).collect();
+            if users.is_empty() || users.len() != (*bound).max(1) || !users.iter().all(|&t| waits_of(t) == waits_of(users[0])) {
+                continue;
+            }
+            // j-th wait Ret of each user, and the event just before it in that thread
+            let ret_of = |t: usize, j: usize| -> Option<usize> {
+                log.iter()
+                    .enumerate()
+                    .filter(|(_, e)| e.thread == t && matches!(e.kind, EKind::Ret(_)) && matches!(&p.threads[t][e.op], GOp::Op(SOp::BarrierWait(x)) if *x == b))
+                    .map(|(i, _)| i)
+                    .nth(j)
+            };
+            for j in 0..waits_of(users[0]) {
+                for &t1 in &users {
+                    let Some(r1) = ret_of(t1, j) else { continue };
+                    // the clocked event of t1 preceding its j-th wait
+                    let before = log[..r1].iter().enumerate().rev().find(|(_, e)| e.thread == t1 && matches!(e.kind, EKind::Ret(_) | EKind::Start)).map(|(i, _)| i);
+                    for &t2 in &users {
+                        if t1 == t2 {
+                            continue;
+                        }
+                        if let (Some(a), Some(r2)) = (before, ret_of(t2, j)) {
+                            out.push((a, r2));
+                        }
+                    }
+                }
+            }
+        }
+        out
+    }
     fn m_init(cfg: &SCfg, n: usize) -> SM {
         SM {
             m: vec![(None, 0); cfg.mutexes],
